@@ -5,15 +5,13 @@ import "context"
 // C01 — an acknowledged produce is durable in S3 (concurrent producers, any upload failure,
 // and after a restart).
 func VsymC01_Durable() {
+	// shapes: {producers, upload failures, preemption bound (0 = unbounded)}
+	shape := [][3]int{{2, 1, 2}, {3, 0, 1}, {3, 0, 2}, {2, 2, 3}, {2, 1, 0}, {3, 1, 1}}[vsym_Param("shape")]
 	w := vsymNewConcWorld(true)
-	w.s3.budget = vsym_Param("faults")
-	vsym_PreemptionBound(vsym_Param("preempt"))
-	if vsym_Param("fine") == 1 {
-		vsym_ExploreSchedules() // preemption at every mutex/cond/WaitGroup operation as well
-	} else {
-		vsym_ExploreEvents() // preemption at S3 calls, publish callbacks and producer steps, and when blocked
-	}
-	for i := 0; i < vsym_Param("producers"); i++ {
+	w.s3.budget = shape[1]
+	vsym_PreemptionBound(shape[2])
+	vsym_ExploreEvents() // preemption at S3 calls, publish callbacks and producer steps, and when blocked
+	for i := 0; i < shape[0]; i++ {
 		vsym_Go(w.producer(i, "C01"))
 	}
 	vsym_Join()
